@@ -7,15 +7,26 @@
 (* parser's dispatch chain: a token is an exact flag, or the longest       *)
 (* documented option name that prefixes it followed by an attached value   *)
 (* (the value is the next token when nothing is attached), or the          *)
-(* "[IGNORE_]TEST(group, name)" form.  Values are identifier-like words,   *)
-(* counts positive decimal numbers.  Parsing goes left to right (index i); *)
-(* one step consumes one or two tokens.                                    *)
+(* "[IGNORE_]TEST(group, name)" form.  Values are identifier-like words.    *)
+(* Repeat counts and shuffle seeds are DATA: decimal digit strings, kept   *)
+(* and compared as digit sequences (TLC integers are 32-bit), leading      *)
+(* zeros do not change the number.  The documented range is 1..2^32-1: the *)
+(* runner derives its own seed from the clock as an unsigned int, prints   *)
+(* it, and the documented way to repeat an order is to feed that number    *)
+(* back with -s; numbers of 2^32 and more are left open.                   *)
+(* Parsing goes left to right (index i); one step consumes one or two      *)
+(* tokens.                                                                 *)
 (*   Step = "ok" (configuration updated), "help" (-h: help is printed, no  *)
-(*   test runs) or "undoc": the vector leaves the documented language      *)
-(*   (malformed value, missing value, unknown option, plugin argument...). *)
+(*   test runs), "invalid" (the one value the help text itself declares    *)
+(*   invalid: "-s [<seed>] ... must be greater than 0", i.e. an attached   *)
+(*   seed of zero: the vector must be rejected) or "undoc": the vector     *)
+(*   leaves the documented language (malformed value, missing value,       *)
+(*   unknown option, plugin argument...).                                  *)
 (* For undocumented vectors the statement only requires safety: the        *)
 (* parser terminates and either rejects (usage or help printed, no test    *)
-(* runs) or accepts with some configuration.                               *)
+(* runs) or accepts with some configuration.  The help text names no other *)
+(* value as an error (-o<unknown kind>, -t without a dot, -r0 ... have no  *)
+(* documented meaning at all), so those stay open.                         *)
 (* Selection follows C02's rule (a test runs iff its group is accepted by  *)
 (* at least one group filter, when any are given, and its name by at least *)
 (* one name filter) - except for the one case the help text defines by     *)
@@ -71,9 +82,20 @@ OutTypes == {T_normal, T_eclipse, T_junit, T_teamcity}
 (* lexical classes *)
 IsIdentCh(c) == (c >= 48 /\ c <= 57) \/ (c >= 65 /\ c <= 90) \/ (c >= 97 /\ c <= 122) \/ c = 95
 IsIdent(t) == t # <<>> /\ \A k \in 1..Len(t) : IsIdentCh(t[k])
-IsNumber(t) == t # <<>> /\ Len(t) <= 6 /\ t[1] # 48 /\ \A k \in 1..Len(t) : t[k] >= 48 /\ t[k] <= 57
-RECURSIVE NumVal(_)
-NumVal(t) == IF t = <<>> THEN 0 ELSE 10 * NumVal(SubSeq(t, 1, Len(t) - 1)) + (t[Len(t)] - 48)
+\* numbers as digit strings.  Canon = the number without leading zeros (<<>> for zero); canonical numbers are ordered by
+\* length, then digit by digit.
+IsDigits(t) == t # <<>> /\ \A k \in 1..Len(t) : t[k] >= 48 /\ t[k] <= 57
+Canon(t) == LET NZ == { k \in 1..Len(t) : t[k] # 48 } IN
+            IF NZ = {} THEN <<>> ELSE SubSeq(t, CHOOSE k \in NZ : \A j \in NZ : k <= j, Len(t))
+DecLeq(a, b) == Len(a) < Len(b) \/ (Len(a) = Len(b) /\ CmpSign(a, b) <= 0)
+T_MaxCount == <<52, 50, 57, 52, 57, 54, 55, 50, 57, 53>>                          \* "4294967295" = 2^32 - 1
+IsZeroNumber(t) == IsDigits(t) /\ Canon(t) = <<>>
+IsNumber(t) == IsDigits(t) /\ Canon(t) # <<>> /\ DecLeq(Canon(t), T_MaxCount)      \* a documented count / seed: 1..2^32-1
+NumVal(t) == Canon(t)                                                            \* the number a digit string denotes, canonical
+\* small numbers as integers (how often the probe tests run)
+IsSmallNumber(d) == Len(d) <= 2 \/ d = <<49, 48, 48>>                             \* canonical d <= 100
+RECURSIVE IntVal(_)
+IntVal(t) == IF t = <<>> THEN 0 ELSE 10 * IntVal(SubSeq(t, 1, Len(t) - 1)) + (t[Len(t)] - 48)
 DotPositions(t) == { k \in 1..Len(t) : t[k] = 46 }
 IsGroupDotName(t) == \E k \in DotPositions(t) : IsIdent(SubSeq(t, 1, k - 1)) /\ IsIdent(SubSeq(t, k + 1, Len(t)))
 DotAt(t) == CHOOSE k \in DotPositions(t) : TRUE             \* unique when IsGroupDotName(t)
@@ -96,7 +118,7 @@ TestFormParts(t) == LET inner == TestFormInner(t)
 -----------------------------------------------------------------------------
 (* configuration *)
 Default == [verbose |-> FALSE, vv |-> FALSE, color |-> FALSE, sep |-> FALSE, lg |-> FALSE, ln |-> FALSE, ll |-> FALSE,
-            ri |-> FALSE, rev |-> FALSE, crash |-> FALSE, rethrow |-> TRUE, shuffle |-> FALSE, seed |-> 0, repeat |-> 1,
+            ri |-> FALSE, rev |-> FALSE, crash |-> FALSE, rethrow |-> TRUE, shuffle |-> FALSE, seed |-> <<>>, repeat |-> <<49>>,     \* seed <<>>: none / from the clock
             out |-> "eclipse", pkg |-> <<>>, fo |-> <<>>]
 \* filter options in the order given: kind "g" (group), "n" (name), "t" (group.name / TEST form)
 FOpt(kind, g, n, strict, invert) == [kind |-> kind, g |-> g, n |-> n, strict |-> strict, invert |-> invert]
@@ -143,11 +165,12 @@ Step(argv, i, cfg) ==
          (IF rest # <<>> THEN
               (IF IsNumber(rest) THEN R("ok", IF p = T_dr THEN [cfg EXCEPT !.repeat = NumVal(rest)]
                                                           ELSE [cfg EXCEPT !.shuffle = TRUE, !.seed = NumVal(rest)], i + 1)
+               ELSE IF p = T_ds /\ IsZeroNumber(rest) THEN R("invalid", cfg, i + 1)   \* "-s0": the seed "must be greater than 0"
                ELSE R("undoc", cfg, i))
           ELSE IF hasNext /\ IsNumber(nxt) THEN
                R("ok", IF p = T_dr THEN [cfg EXCEPT !.repeat = NumVal(nxt)] ELSE [cfg EXCEPT !.shuffle = TRUE, !.seed = NumVal(nxt)], i + 2)
           ELSE IF ~hasNext \/ LooksLikeOption(nxt) THEN                       \* no count given: twice / time-based seed
-               R("ok", IF p = T_dr THEN [cfg EXCEPT !.repeat = 2] ELSE [cfg EXCEPT !.shuffle = TRUE, !.seed = 0], i + 1)
+               R("ok", IF p = T_dr THEN [cfg EXCEPT !.repeat = <<50>>] ELSE [cfg EXCEPT !.shuffle = TRUE, !.seed = <<>>], i + 1)
           ELSE R("undoc", cfg, i))
     ELSE IF p \in GroupOpts \cup NameOpts THEN
          (IF hasVal /\ IsIdent(val) THEN
@@ -163,12 +186,16 @@ Step(argv, i, cfg) ==
     ELSE IF p = T_dk THEN (IF hasVal /\ IsIdent(val) THEN R("ok", [cfg EXCEPT !.pkg = val], after) ELSE R("undoc", cfg, i))
     ELSE R("undoc", cfg, i)                                                   \* -p<plugin argument>
 
-\* the meaning of a whole vector: "accept" with a configuration, "help", or "undoc"
-RECURSIVE Run(_, _, _)
-Run(argv, i, cfg) == IF i > Len(argv) THEN [k |-> "accept", cfg |-> cfg]
-                     ELSE LET s == Step(argv, i, cfg) IN
-                          IF s.k = "ok" THEN Run(argv, s.i, s.cfg) ELSE [k |-> s.k, cfg |-> cfg]
-Meaning(argv) == Run(argv, 1, Default)
+\* the meaning of a whole vector: "accept" with a configuration, "help", "invalid" (documented as an error: must be
+\* rejected - only when the rest of the vector stays inside the documented language) or "undoc"
+RECURSIVE Run(_, _, _, _)
+Run(argv, i, cfg, inv) == IF i > Len(argv) THEN [k |-> IF inv THEN "invalid" ELSE "accept", cfg |-> cfg]
+                          ELSE LET s == Step(argv, i, cfg) IN
+                               IF s.k = "ok" THEN Run(argv, s.i, s.cfg, inv)
+                               ELSE IF s.k = "invalid" THEN Run(argv, s.i, s.cfg, TRUE)
+                               ELSE IF s.k = "help" THEN [k |-> IF inv THEN "invalid" ELSE "help", cfg |-> cfg]
+                               ELSE [k |-> s.k, cfg |-> cfg]
+Meaning(argv) == Run(argv, 1, Default, FALSE)
 
 -----------------------------------------------------------------------------
 (* selection of tests; a test is [g, n, ign] *)
@@ -183,21 +210,23 @@ Selected(t, cfg) ==
     ELSE MatchAny(GF(cfg), t.g) /\ MatchAny(NF(cfg), t.n)
 \* how often the body of probe test t runs
 Runs(t, cfg) == IF cfg.lg \/ cfg.ln \/ cfg.ll THEN 0
-                ELSE IF Selected(t, cfg) /\ (~t.ign \/ cfg.ri) THEN cfg.repeat ELSE 0
+                ELSE IF Selected(t, cfg) /\ (~t.ign \/ cfg.ri) THEN IntVal(cfg.repeat) ELSE 0      \* asked only for small repeat counts
 
 -----------------------------------------------------------------------------
 (* The parser as a state machine: one action per step *)
-VARIABLES argv, i, cfg, status, steps
-vars == <<argv, i, cfg, status, steps>>
-Start(v) == argv = v /\ i = 1 /\ cfg = Default /\ status = "parsing" /\ steps = 0
+VARIABLES argv, i, cfg, status, steps, inv
+vars == <<argv, i, cfg, status, steps, inv>>
+Start(v) == argv = v /\ i = 1 /\ cfg = Default /\ status = "parsing" /\ steps = 0 /\ inv = FALSE
 ParseStep == /\ status = "parsing" /\ i <= Len(argv)
              /\ LET s == Step(argv, i, cfg) IN
                   /\ cfg' = s.cfg
-                  /\ i' = IF s.k = "ok" THEN s.i ELSE i
-                  /\ status' = CASE s.k = "ok" -> "parsing" [] s.k = "help" -> "help" [] OTHER -> "undoc"
+                  /\ i' = IF s.k \in {"ok", "invalid"} THEN s.i ELSE i
+                  /\ inv' = (inv \/ s.k = "invalid")
+                  /\ status' = CASE s.k \in {"ok", "invalid"} -> "parsing"
+                                  [] s.k = "help" -> (IF inv THEN "invalid" ELSE "help") [] OTHER -> "undoc"
              /\ steps' = steps + 1 /\ UNCHANGED argv
 ParseEnd == /\ status = "parsing" /\ i > Len(argv)
-            /\ status' = "accept" /\ UNCHANGED <<argv, i, cfg, steps>>
+            /\ status' = (IF inv THEN "invalid" ELSE "accept") /\ UNCHANGED <<argv, i, cfg, steps, inv>>
 Next == ParseStep \/ ParseEnd
 
 \* properties of the parser
